@@ -74,6 +74,8 @@ static const char *DOCS[] = {
 	"[1.5,2.25e3,-0.125,1e-7,123456789.123456789,18446744073709551615,-9223372036854775808]",
 	"/* c */ {'a' : 'b', /* x */ \"n\": [NaN, Infinity, -Infinity, TRUE, nUlL,],} // tail\n",
 	"{\"\\ud83d\\ude00\":\"\\u0000\\n\\t\\\"\\\\\\/\",\"dup\":1,\"dup\":{\"x\":[[],{}]}}",
+	"{\"member_number_0\":[0,\"value 0\"],\"member_number_1\":[1,\"value 1\"],\"member_number_2\":[2,\"value 2\"],\"member_number_3\":[3,\"value 3\"],\"member_number_4\":[4,\"value 4\"],\"member_number_5\":[5,\"value 5\"],\"member_number_6\":[6,\"value 6\"],\"member_number_7\":[7,\"value 7\"],\"member_number_8\":[8,\"value 8\"],\"member_number_9\":[9,\"value 9\"],\"member_number_10\":[10,\"value 10\"],\"member_number_11\":[11,\"value 11\"],\"member_number_12\":[12,\"value 12\"],\"member_number_13\":[13,\"value 13\"],\"member_number_14\":[14,\"value 14\"],\"member_number_15\":[15,\"value 15\"],\"member_number_16\":[16,\"value 16\"],\"member_number_17\":[17,\"value 17\"],\"member_number_18\":[18,\"value 18\"],\"member_number_19\":[19,\"value 19\"],\"member_number_20\":[20,\"value 20\"],\"member_number_21\":[21,\"value 21\"],\"member_number_22\":[22,\"value 22\"],\"member_number_23\":[23,\"value 23\"],\"member_number_24\":[24,\"value 24\"],\"member_number_25\":[25,\"value 25\"],\"member_number_26\":[26,\"value 26\"],\"member_number_27\":[27,\"value 27\"],\"member_number_28\":[28,\"value 28\"],\"member_number_29\":[29,\"value 29\"],\"member_number_30\":[30,\"value 30\"],\"member_number_31\":[31,\"value 31\"],\"member_number_32\":[32,\"value 32\"],\"member_number_33\":[33,\"value 33\"],\"member_number_34\":[34,\"value 34\"],\"member_number_35\":[35,\"value 35\"],\"member_number_36\":[36,\"value 36\"],\"member_number_37\":[37,\"value 37\"],\"member_number_38\":[38,\"value 38\"],\"member_number_39\":[39,\"value 39\"],\"member_number_40\":[40,\"value 40\"],\"member_number_41\":[41,\"value 41\"],\"member_number_42\":[42,\"value 42\"],\"member_number_43\":[43,\"value 43\"],\"member_number_44\":[44,\"value 44\"],\"member_number_45\":[45,\"value 45\"],\"member_number_46\":[46,\"value 46\"],\"member_number_47\":[47,\"value 47\"],\"member_number_48\":[48,\"value 48\"],\"member_number_49\":[49,\"value 49\"],\"member_number_50\":[50,\"value 50\"],\"member_number_51\":[51,\"value 51\"],\"member_number_52\":[52,\"value 52\"],\"member_number_53\":[53,\"value 53\"],\"member_number_54\":[54,\"value 54\"],\"member_number_55\":[55,\"value 55\"],\"member_number_56\":[56,\"value 56\"],\"member_number_57\":[57,\"value 57\"],\"member_number_58\":[58,\"value 58\"],\"member_number_59\":[59,\"value 59\"]}",
+	"[{\"i\":0},1.5,3.0,4.5,6.0,7.5,9.0,{\"i\":7},12.0,13.5,15.0,16.5,18.0,19.5,{\"i\":14},22.5,24.0,25.5,27.0,28.5,30.0,{\"i\":21},33.0,34.5,36.0,37.5,39.0,40.5,{\"i\":28},43.5,45.0,46.5,48.0,49.5,51.0,{\"i\":35},54.0,55.5,57.0,58.5,60.0,61.5,{\"i\":42},64.5,66.0,67.5,69.0,70.5,72.0,{\"i\":49},75.0,76.5,78.0,79.5,81.0,82.5,{\"i\":56},85.5,87.0,88.5,90.0,91.5,93.0,{\"i\":63},96.0,97.5,99.0,100.5,102.0,103.5,{\"i\":70},106.5,108.0,109.5,111.0,112.5,114.0,{\"i\":77},117.0,118.5,120.0,121.5,123.0,124.5,{\"i\":84},127.5,129.0,130.5,132.0,133.5,135.0,{\"i\":91},138.0,139.5,141.0,142.5,144.0,145.5,{\"i\":98},148.5,150.0,151.5,153.0,154.5,156.0,{\"i\":105},159.0,160.5,162.0,163.5,165.0,166.5,{\"i\":112},169.5,171.0,172.5,174.0,175.5,177.0,{\"i\":119},180.0,181.5,183.0,184.5,186.0,187.5,{\"i\":126},190.5,192.0,193.5,195.0,196.5,198.0,{\"i\":133},201.0,202.5,204.0,205.5,207.0,208.5,{\"i\":140},211.5,213.0,214.5,216.0,217.5,219.0,{\"i\":147},222.0,223.5]",
 };
 #define NDOCS ((int)(sizeof DOCS / sizeof DOCS[0]))
 
